@@ -188,14 +188,18 @@ CLAIMED = {
         engine='C',
     ),
     'C18': dict(
-        category='other',
-        text='Claimed in part (structural): both data-URL constructors validate the whole input with Uri/UriBuf::new, then run the single DataUrlDelimiters::parse on that text, succeed '
-             'exactly when it returns Some, store exactly its result and hand the input back otherwise; the owned form is immutable; parts() of both forms is into_parts(parse(text)); '
-             'unchecked constructors are unsafe.',
-        design_ref='DESIGN.md §4 C18',
-        note='NOT decided: that the re-scanning accessors media_type / is_base_64_encoded / encoded_data of the borrowed form agree with the stored offsets, base64 decoding, and that parse accepts exactly the documented shape.',
-        technique='MIR shape rules with dominators and symbolic terms (static analysis)',
-        engine='C',
+        category='model_checking',
+        text='Exhaustive abstract execution (Engine S) of the MIR of the five data-URL scanners in product with the automaton of the documented shape '
+             '(spec/data-url.abnf: "data:" media-type [";base64"] "," data), for ALL ascii texts: DataUrlDelimiters::parse returns Some exactly on that shape and its three results are the '
+             'specification positions/flag; DataUrlPartsRef::parse (= parse + into_parts, i.e. the code of the owned accessors on the stored offsets) and the three re-scanning accessors of the borrowed form '
+             '(media_type, is_base_64_encoded, encoded_data) return exactly the specification spans on every text of the shape — hence borrowed and owned views agree and reassemble the text; '
+             'every scanner terminates (no cycle of abstract states that reads no input) and never slices out of bounds. Structural rules (MIR terms, dominators): both constructors validate the whole '
+             'input with Uri/UriBuf::new, run the single parse on that text, succeed exactly when it returns Some, store exactly its result; the owned form is immutable; unchecked constructors are unsafe.',
+        design_ref='DESIGN.md §4 C18, §10.6 (Engine S)',
+        note='Trusted: summaries of str::strip_prefix / char_indices / chars / Iterator::next / slicing / == (iv/strscan.py) for ascii text; ascii-ness of a valid URI (C01). NOT decided: base64 decoding of decoded_data (the base64 crate). '
+             'The media-type alphabet of the specification is RFC 6838 restricted-name-chars plus "/" (no parameters), which is what the property calls media-type.',
+        technique='abstract interpretation of scanner MIR in product with a specification automaton (explicit-state, exhaustive) + MIR shape rules (static analysis)',
+        engine='S+C',
     ),
     'C19': dict(
         category='other',
@@ -264,6 +268,7 @@ def build():
         'engines': [
             {'name': 'facts', 'path': 'driver/', 'serves_properties': sorted(CLAIMED), 'kind_free_text': 'rustc_private driver: MIR/HIR/instance-graph facts of the current /repo tree'},
             {'name': 'A', 'path': 'iv/aut.py iv/abnf.py iv/lang.py spec/', 'serves_properties': sorted(CLAIMED), 'kind_free_text': 'ABNF → DFA, equivalence / inclusion with shortest witnesses'},
+            {'name': 'S', 'path': 'iv/strscan.py iv/dataurl.py spec/data-url.abnf', 'serves_properties': ['C18'], 'kind_free_text': 'scanner MIR over str/char-iterator API x specification automaton (exhaustive abstract execution)'},
             {'name': 'C', 'path': 'iv/sites.py iv/terms.py iv/mir.py', 'serves_properties': sorted(CLAIMED), 'kind_free_text': 'resolved-program rules over MIR: unsafe-site table, dataflow identity, dominators'},
         ],
         'checks': checks,
